@@ -129,7 +129,7 @@ class Layout:
 
     def comment(self):
         if self.rng.random() < self.comments:
-            return self.sp(' ') + '# ' + self.rng.choice(['c', 'todo: {x}', '"q"', '// not an annotation', '@t', ''])
+            return self.sp(' ') + self.rng.choice(['# c', '# todo: {x}', '# "q"', '# // not an annotation', '# @t', '# ', '#', '#c'])
         return ''
 
     def block_comment(self, ind):
@@ -213,11 +213,12 @@ def gen_model(rng, depth=0, prop=False):
             return ('L', v, maybe(rules))
         if k < 0.5:
             v = rng.choice(['1.5', '-0.25', '3.140'])
-            rules = rng.choice([[], [('precision', ('s', '3'))], [('type', ('s', '"float"')), ('min', ('s', '-1'))], [('type', ('s', '"decimal"')), ('precision', ('s', '4'))]])
+            rules = rng.choice([[], [('precision', ('s', '3'))], [('type', ('s', '"float"')), ('min', ('s', '-1'))], [('type', ('s', '"decimal"')), ('precision', ('s', '4'))],
+                                [('precision', ('s', '9223372036854775808'))], [('precision', ('s', '18446744073709551615'))], [('precision', ('s', '9223372036854775807'))]])
             return ('L', v, maybe(rules))
         if k < 0.8:
             v = rng.choice(['"abc"', '"a b"', '"\\u0041bc"', '"é//x"', '"#no comment"', '"/* no */"', '"x@y.org"'])
-            rules = rng.choice([[], [('minLength', ('s', '1'))], [('minLength', ('s', '0')), ('maxLength', ('s', '18446744073709551615'))], [('type', ('s', '"string"'))],
+            rules = rng.choice([[], [('minLength', ('s', '1'))], [('minLength', ('s', '0')), ('maxLength', ('s', '18446744073709551615'))], [('minLength', ('s', '1')), ('maxLength', ('s', '9223372036854775808'))], [('type', ('s', '"string"'))],
                                 [('regex', ('s', '"."'))], [('enum', ('l', [('s', v), ('s', '"other"')]))], [('nullable', ('s', 'false'))]])
             if v == '"x@y.org"' and rng.random() < 0.5:
                 rules = [('type', ('s', '"email"'))]
@@ -229,7 +230,7 @@ def gen_model(rng, depth=0, prop=False):
     if r < 0.7:
         n = rng.randint(0, 3)
         items = [gen_model(rng, depth + 1) for _ in range(n)]
-        rules = rng.choice([[], [], [('minItems', ('s', '0'))], [('minItems', ('s', '0')), ('maxItems', ('s', '10'))]]) if items else []
+        rules = rng.choice([[], [], [('minItems', ('s', '0'))], [('minItems', ('s', '0')), ('maxItems', ('s', '10'))], [('maxItems', ('s', '18446744073709551615'))], [('minItems', ('s', '1')), ('maxItems', ('s', '9223372036854775808'))]]) if items else []
         return ('A', maybe(rules), items)
     n = rng.randint(0, 3)
     keys = rng.sample(['"a"', '"b"', '"a b"', '"\\u0063"', '"k-1"', '"é"', '"#"', '"//"'], n)
